@@ -291,8 +291,10 @@ func gen(c *ex.Ctx) {
 	})
 	fmt.Fprintf(&sb, "\n/-- Condition of the first `if` of the `case 'R'` arm of handleSequence (\"\" = not recognised). -/\ndef cprCond : String := %s\n", ex.LeanStr(cprCond))
 	// 7. the colour requesters: top-level statements of QueryColor / QueryForeground / QueryBackground
-	for _, q := range [][2]string{{"QueryColor", "qc_stmts"}, {"QueryForeground", "qf_stmts"}, {"QueryBackground", "qb_stmts"}} {
-		fd := ex.FindFunc(f, "Vaxis", q[0])
+	// and the parser of the reply they share (since the F303 repair)
+	for _, q := range [][3]string{{"QueryColor", "qc_stmts", "Vaxis"}, {"QueryForeground", "qf_stmts", "Vaxis"}, {"QueryBackground", "qb_stmts", "Vaxis"},
+		{"parseColorReply", "pr_stmts", ""}} {
+		fd := ex.FindFunc(f, q[2], q[0])
 		var sts []string
 		if fd != nil && fd.Body != nil {
 			for _, st := range fd.Body.List {
